@@ -68,12 +68,13 @@ def run(ctx):
     correspondence(ctx, ctx.seed, ctx.tier)
     ctx.trusted += [
         "hand model (Model/TestRunner.lean): meanings of rsplit_once/map_or/starts_with/replace/strip_prefix/sort and of the iterator "
-        "adapters; Module::get_function after its (generated) key computation as one table look-up + signature equality; declaration name spaces; pipeline stages as World operations "
+        "adapters; inside the (generated) Module::get_function the meaning of check_args / check_roto_type_reflect as equality of parameter lists / return types; declaration name spaces; pipeline stages as World operations "
         "— tied by the correspondence run only",
         "unicode-ident: '#' and '.' are not XID_Continue, XID_Start is a subset of XID_Continue (hypothesis XIDFacts of discovery_exact / no_shadow_*)",
         "counters of run_tests are i32 (Rust integer fallback; an explicitly typed counter is refused by the translator): aggregate_* assume fewer than 2^31 tests",
         "std::process::ExitCode is modelled as the status number the parent observes (SUCCESS = 0, FAILURE = 1, from(u8)); `failed` = status ≠ 0",
         "the JIT-compiled body of a test returns the verdict its source says (C01); modelled as FnInfo.verdict",
+        "compiler-generated entries of the function table (eq/clone/drop glue) have no `#` in their keys (hypothesis of discovery_*; checked on every real table of the run)",
     ]
     return ctx.finish(
         level="proof",
